@@ -36,6 +36,11 @@ Clear(x) == <<>>
 Dom_Set(x, i) == InRange(x, i)
 Set(x, i, v) == [k \in 1..Len(x) |-> IF k = i + 1 THEN v ELSE x[k]]
 
+\* Clone::clone_from(&mut self, source): self becomes a copy of source - same length, same elements, whatever self held before
+CloneFrom(x, src) == [k \in 1..Len(src) |-> src[k]]
+\* == / != : equal length and equal elements
+Equal(x, y) == Len(x) = Len(y) /\ \A k \in 1..Len(x) : x[k] = y[k]
+
 (* ---------------- sorting and searching ---------------- *)
 IsSorted(x) == \A k \in 1..(Len(x) - 1) : x[k] <= x[k + 1]
 Count(x, v) == Cardinality({k \in 1..Len(x) : x[k] = v})
@@ -109,7 +114,7 @@ IsModulusVec(m, re, im) == Len(m) = Len(re) /\ \A k \in 1..Len(re) : IsModulus(m
 (* e is an operation record (field op + arguments).  Outside an operation's domain the *)
 (* vector is unchanged.                                                                *)
 IsMutator(e) == e.op \in {"push", "push_front", "insert", "pop", "swap", "resize", "assign", "clear", "sort", "sort_desc", "set",
-                          "add_assign", "sub_assign", "add_scalar_assign", "sub_scalar_assign", "mul_assign"}
+                          "add_assign", "sub_assign", "add_scalar_assign", "sub_scalar_assign", "mul_assign", "clone_from"}
 ApplyOp(x, e) ==
   CASE e.op = "push" -> Push(x, e.x)
     [] e.op = "push_front" -> PushFront(x, e.x)
@@ -127,5 +132,6 @@ ApplyOp(x, e) ==
     [] e.op = "add_scalar_assign" -> Shift(x, e.x)
     [] e.op = "sub_scalar_assign" -> Shift(x, -e.x)
     [] e.op = "mul_assign" -> Scale(x, e.x)
+    [] e.op = "clone_from" -> CloneFrom(x, e.v)
     [] OTHER -> x
 =============================================================================
